@@ -151,6 +151,18 @@ def fam_currency(r, n):
     return out
 
 
+def fam_braces(r, n):
+    """Literal text that spells a regex quantifier or group."""
+    out = []
+    k = r.randint(1, 3)
+    q = r.pick(['{%d}' % k, '{%d,%d}' % (k, k + 1), '{,%d}' % k, '(?:x)',
+                '[a-c]', '{%d' % k, '%d}' % k])
+    for _ in range(n):
+        a = ''.join(r.pick(LOWER) for _ in range(r.randint(0, 2)))
+        out.append(a + q + (r.pick(LOWER) if r.chance(0.3) else ''))
+    return out
+
+
 FAMILIES = [fam_ids, fam_dates, fam_emails, fam_uuid, fam_tels,
             fam_bracket_punct, fam_many_frags]
 
@@ -170,7 +182,8 @@ def corpus(r, max_n=40, risky_rate=0.04, allow_none=True):
             fam = r.weighted([(3, fam_ids), (2, fam_dates), (2, fam_emails),
                               (1, fam_uuid), (2, fam_tels),
                               (3, fam_bracket_punct), (0.4, fam_many_frags),
-                              (2.5, fam_hexish), (1.5, fam_currency)])
+                              (2.5, fam_hexish), (1.5, fam_currency),
+                              (1.5, fam_braces)])
             k = max(1, n // (nf + (1 if mode == 'mixed' else 0)))
             if fam is fam_many_frags:
                 k = min(k, 3)
